@@ -121,8 +121,9 @@ fn big_issue_call(rng: &mut Rng, now: i64) -> IssueCall {
 
 pub fn gen_c11(rng: &mut Rng, tier: Tier) -> Result<Value, serde_json::Error> {
     let now = clock_base(rng);
-    let key = rng.pick(&["ecA", "edA", "hsA"]).to_string();
+    let key = rng.pick(&["ecA", "edA", "hsA", "ecA", "edA", "hsA", "ecA", "edA", "hsA", "rsA", "e3A"]).to_string();
     let alg = match &key[..2] {
+        "rs" => Some(rng.pick(&["RS256", "PS256", "PS384"]).to_string()),
         "ec" => {
             if rng.bool() {
                 None
